@@ -1584,10 +1584,14 @@ class Crystal(object):
         # run through list to ensure that all k-points are inside the BZ
         Gmin = min(np.dot(G, G) for G in self.BZG)
         for k in kptfull:
-            if np.dot(k, k) >= Gmin:
+            moved = np.dot(k, k) >= Gmin
+            while moved:
+                # a translation can push the point across another zone face: repeat until it is inside
+                moved = False
                 for G in self.BZG:
-                    if np.dot(k, G) > np.dot(G, G):
+                    if np.dot(k, G) > np.dot(G, G) + 1e-12:
                         k -= 2. * G
+                        moved = True
         return kptfull
 
     def reducekptmesh(self, kptfull, threshold=None):
